@@ -219,6 +219,9 @@ def check(col, prog, tier, profile, fixture=None):
                 if ok:
                     args = [x for x in ret[2] if not (isinstance(x, tuple) and x and x[0] == "mem")]
                     lhs = args[0][1][1] if args[0][0] == "ref" and args[0][1][0] == "constval" else args[0]
+                    if args[0][0] == "ref" and args[0][1][0] == "field" and args[0][1][1][0] == "constval":
+                        # `diff.sign()` with the helper inlined: &(diff).a
+                        lhs = ("proj", args[0][1][2], args[0][1][1][1])
                     rhs = args[1][1][1] if args[1][0] == "ref" and args[1][1][0] == "constval" else args[1]
                     ok = lhs[0] == "proj" and lhs[1] == A and lhs[2][0] == "call" and str(lhs[2][1]).endswith("Sub<&Rational<T>>>::sub") and rhs[0] == "assoc" and rhs[2] == "ZERO"
                     if ok:
@@ -253,10 +256,10 @@ def check(col, prog, tier, profile, fixture=None):
         neg = None
         for f in st.facts:
             t = f[1]
-            if isinstance(t, tuple) and t and t[0] == "call" and str(t[1]).endswith("PartialOrd::lt") and f[0] == "eq":
+            if isinstance(t, tuple) and t and t[0] == "call" and str(t[1]).endswith(("PartialOrd::lt", "PartialOrd::ge")) and f[0] == "eq":
                 args = [x for x in t[2] if not (isinstance(x, tuple) and x and x[0] == "mem")]
                 if args[0] == ("ref", fb) and args[1][0] == "ref" and args[1][1][0] == "constval" and args[1][1][1][0] == "assoc" and args[1][1][1][2] == "ZERO":
-                    neg = bool(f[2])
+                    neg = bool(f[2]) if str(t[1]).endswith("::lt") else not bool(f[2])
         final_a, final_b = I.load(st.mem, fa), I.load(st.mem, fb)
         after_div = da[-1].state[1] if da else None
         key = "%s|%s" % (fk(norm), "negative-branch" if neg else "non-negative-branch")
